@@ -664,7 +664,9 @@ func c12BlockIDs(b types.Block) map[string][32]byte {
 		}
 		for i := range t.SiafundOutputs {
 			ids[fmt.Sprintf("%s/sf/%d", p, i)] = t.SiafundOutputID(i)
-			ids[fmt.Sprintf("%s/sfclaim/%d", p, i)] = t.SiafundClaimOutputID(i)
+			// Transaction.SiafundClaimOutputID(i) IS SiafundOutputID(i).ClaimOutputID(): the claim paid when that output is
+			// spent — the same derivation as the "claim/<parent>" entry of a later input spending it (possibly in this block)
+			ids[fmt.Sprintf("claim/%x", t.SiafundOutputID(i))] = t.SiafundClaimOutputID(i)
 		}
 		for _, in := range t.SiafundInputs {
 			ids[fmt.Sprintf("claim/%x", in.ParentID)] = in.ParentID.ClaimOutputID()
